@@ -97,6 +97,23 @@ func Main(id, level string, drivers func(quick bool) []Driver, describe func(c *
 	}
 	enum.Main(id, level, func(c *enum.Ctx) {
 		describe(c)
+		// what the instrumenter did to the packages under test
+		if data, err := os.ReadFile(os.Getenv("VERIF_WORK") + "/vinstr.log"); err == nil {
+			var unin, inst []string
+			for _, l := range strings.Split(strings.TrimSpace(string(data)), "\n") {
+				switch {
+				case strings.HasPrefix(l, "UNINSTRUMENTED"):
+					unin = append(unin, strings.TrimPrefix(l, "UNINSTRUMENTED "))
+				case strings.HasPrefix(l, "INSTRUMENTED"):
+					inst = append(inst, strings.TrimPrefix(l, "INSTRUMENTED "))
+				}
+			}
+			c.Set("instrumented", inst)
+			c.Set("uninstrumented", unin)
+			if len(unin) > 0 {
+				c.NotExhaustive(fmt.Sprintf("the instrumenter left %d construct(s) untouched (%s): schedules through them are not controlled", len(unin), strings.Join(unin, "; ")))
+			}
+		}
 		ok, rep := SelfCheck()
 		c.Set("engine_selfcheck", rep)
 		if !ok {
